@@ -68,6 +68,9 @@ pub fn run(rep: &Report) {
     let cnames = crate::gen::custom_name_alphabet();
     let calpha = alphabet_trees(&base, &cnames);
     run_structures(rep, "alphabet pass (path-safe names): all strategies incl. every Custom subset", &calpha, &all_strats, &two, checks, false);
+    let pool = ["a", "ab", "abc", "b"];
+    let nt = named_trees(3, 3, &pool);
+    run_structures(rep, "name-prefix family: S(3,3) with member names drawn from {a, ab, abc, b} in every sibling-distinct way x all strategies", &nt, &all_strats, &two, checks, false);
     let ch = chains(if quick { 6 } else { 8 });
     run_structures(rep, "depth chains", &ch, &few_strategies, &c8, checks, false);
     let ex = trees_with_extras(2, 2);
